@@ -93,6 +93,42 @@ impl S2 {
         S2 { map: b.build().unwrap(), mask, in_tx: false, tx_ops: vec![] }
     }
 
+    /// `load` of the protocol: `groups` = the beta rows followed by the removal flags (n+1 numbers each)
+    pub fn load(n: usize, mask: u32, groups: &[Vec<u32>]) -> Self {
+        let mut s = Self::new(n, mask);
+        for (x, u) in groups[3].iter().enumerate() {
+            if *u != 0 {
+                s.map.remove_free_dart(x as u32);
+            }
+        }
+        for x in 0..=n {
+            s.map.set_betas(x as u32, [groups[0][x], groups[1][x], groups[2][x]]);
+        }
+        s
+    }
+
+    /// the body of `endtx`: all `ops` in one `atomically_with_err` block (callable from several threads)
+    pub fn run_tx(&self, ops: &[Vec<String>]) -> String {
+        let r = catch_unwind(AssertUnwindSafe(|| {
+            atomically_with_err(|t| {
+                let mut outs = vec![];
+                for op in ops {
+                    match self.tx_op(t, op) {
+                        Some(r) => outs.push(r?),
+                        None => return Err(TransactionError::Abort("bad-op".to_string())),
+                    }
+                }
+                Ok(outs)
+            })
+        }));
+        attrs::FAULT.with(|f| f.set(0));
+        match r {
+            Err(_) => "tx panic".into(),
+            Ok(Ok(outs)) => format!("tx ok {}", outs.join(" ; ")),
+            Ok(Err(e)) => format!("tx {e}"),
+        }
+    }
+
     fn registered(&self, st: usize) -> bool {
         st >= 1 && st != 4 && st <= 5 && (self.mask >> (st - 1)) & 1 == 1
     }
@@ -369,24 +405,7 @@ impl S2 {
             if toks == ["endtx"] {
                 self.in_tx = false;
                 let ops = std::mem::take(&mut self.tx_ops);
-                let r = catch_unwind(AssertUnwindSafe(|| {
-                    atomically_with_err(|t| {
-                        let mut outs = vec![];
-                        for op in &ops {
-                            match self.tx_op(t, op) {
-                                Some(r) => outs.push(r?),
-                                None => return Err(TransactionError::Abort("bad-op".to_string())),
-                            }
-                        }
-                        Ok(outs)
-                    })
-                }));
-                attrs::FAULT.with(|f| f.set(0));
-                return match r {
-                    Err(_) => "tx panic".into(),
-                    Ok(Ok(outs)) => format!("tx ok {}", outs.join(" ; ")),
-                    Ok(Err(e)) => format!("tx {e}"),
-                };
+                return self.run_tx(&ops);
             }
             self.tx_ops.push(toks.iter().map(|s| s.to_string()).collect());
             return "queued".into();
